@@ -40,7 +40,15 @@ def run(tier):
                        "generated (the statement does not say whether they count as supplied)"]
     hs = histories(chk, tier)
     m = run_histories(chk, hs, {"C01"}, label="c01")
-    chk.distinct = m["execs"]
+    # the same code with a 12-byte encoder buffer and a 5-byte decoder window: every item of every block and of the
+    # reader's input straddles a buffer boundary at some alignment
+    rng2 = rng_for(chk, 101)
+    hs2 = [histgen.gen_history(rng2, nops=rng2.choice([6, 15, 30]), comp="none", sizes=[1, 2, 3, 10000])
+           for _ in range(40 if tier == "quick" else 500)]
+    m2 = run_histories(chk, hs2, {"C01"}, label="c01s", sample=False,
+                       defs=("CDNS_VERIF_ENC_BUFFER=12", "CDNS_VERIF_DEC_BUFFER=5"))
+    chk.extra["scaled_buffer_executions"] = m2["execs"]
+    chk.distinct = m["execs"] + m2["execs"]
     return chk.finish()
 
 
